@@ -61,11 +61,31 @@ def check(run, project):
 
 
 # ------------------------------------------------------------------------------ F1 / F2
+def receiver_classes(fn, call):
+    """classes a `<x>.marshal(...)` call may be bound to: the name itself, or every value a local receiver is assigned"""
+    f = call.func
+    if not (isinstance(f, ast.Attribute) and isinstance(f.value, ast.Name)):
+        return None
+    var = f.value.id
+    defs = [st for st in walk_no_nested(fn) if isinstance(st, ast.Assign) and any(norm(t) == var for t in st.targets)]
+    if not defs:
+        return [var]
+    if all(isinstance(d.value, ast.Name) for d in defs):
+        return [d.value.id for d in defs]
+    return None
+
+
 def delegated_calls(fn, names):
     out = []
     for c in walk_no_nested(fn):
-        if isinstance(c, ast.Call) and (call_name(c) in names):
+        if not isinstance(c, ast.Call):
+            continue
+        if call_name(c) in names:
             out.append(c)
+        elif isinstance(c.func, ast.Attribute):
+            rc = receiver_classes(fn, c)
+            if rc and all(f"{r}.{c.func.attr}" in names for r in rc):
+                out.append(c)
     return out
 
 
@@ -320,17 +340,27 @@ def f5(run, project, L):
            node=hexre[0] if hexre else det, func=det.name, construct="auto hex pattern")
     mf = am.function("marshal")
     disp = {}
-    for s in mf.body:
-        if isinstance(s, ast.If) and isinstance(s.test, ast.Compare) and isinstance(s.test.comparators[0], ast.Constant):
-            calls = [c for c in ast.walk(s) if isinstance(c, ast.Call) and (call_name(c) or "").endswith(".marshal")]
-            if calls:
-                disp[s.test.comparators[0].value] = call_name(calls[0])
+    receivers = {c.func.value.id for c in walk_no_nested(mf) if isinstance(c, ast.Call) and isinstance(c.func, ast.Attribute)
+                 and c.func.attr == "marshal" and isinstance(c.func.value, ast.Name)}
+    for s in walk_no_nested(mf):
+        if isinstance(s, ast.If) and isinstance(s.test, ast.Compare) and isinstance(s.test.comparators[0], ast.Constant) \
+                and isinstance(s.test.ops[0], ast.Eq):
+            for b in s.body:
+                for c in ast.walk(b):
+                    if isinstance(c, ast.Call) and (call_name(c) or "").endswith(".marshal"):
+                        disp.setdefault(s.test.comparators[0].value, call_name(c))
+                    if isinstance(c, ast.Assign) and isinstance(c.value, ast.Name) and norm(c.targets[0]) in receivers:
+                        disp.setdefault(s.test.comparators[0].value, f"{c.value.id}.marshal")
     want = {"pcapng": "Pcapng.marshal", "hex": "Hex.marshal", "binary": "Binary.marshal"}
     run.ob("F5", disp == want, "auto dispatches each detected format to its front-end", f"dispatch is {disp}", module=am, node=mf,
            func=mf.name, construct="auto dispatch")
     first = [s for s in mf.body if isinstance(s, ast.Assign) and "next(" in norm(s.value)]
-    run.ob("F5", len(first) == 1 and norm(first[0].value) == "next(format_buffer_iter)", "the format is the detector's first item",
-           "format extraction changed", module=am, node=mf, func=mf.name, construct="auto format item")
+    fvar = norm(first[0].targets[0]) if first else None
+    tested = {norm(s.test.left) for s in walk_no_nested(mf) if isinstance(s, ast.If) and isinstance(s.test, ast.Compare)
+              and isinstance(s.test.comparators[0], ast.Constant) and s.test.comparators[0].value in want}
+    run.ob("F5", len(first) == 1 and norm(first[0].value) == "next(format_buffer_iter)" and tested == {fvar},
+           "the format is the detector's first item", "format extraction changed", module=am, node=mf, func=mf.name,
+           construct="auto format item")
 
 
 # ------------------------------------------------------------------------------ F6
